@@ -77,24 +77,32 @@ def alloca_loop_cases():
 
 
 def clone_jmpi_cases():
-    """a block ending in an indirect jump that is also the target of a `jmp` from a block placed behind the function's first
-    `ret` (the shape block cloning looks for): whichever copy of the block runs, every label whose address is taken is a
-    possible successor and must see the values computed in that copy."""
+    """a block X that is also the target of a `jmp` from a block placed behind the function's first `ret` (the shape block
+    cloning looks for), ending in a fall through, a conditional branch, a jump or an indirect jump: whichever copy of the block
+    runs, its successors (for the indirect jump: every label whose address is taken) must see the values computed in that copy."""
     out = []
     SEL, V, ACC, LP, SEL2 = 2, 3, 4, 5, 6
     LR = {"k": "dref", "b": 4}
-    for sel in (0, 1):
-        for sel2 in (0, 1):
-            for tail in ("jmpi", "jmpi_after_store"):
+    for tail in ("jmpi", "jmpi_after_store", "fall", "cond", "jmp"):
+        for sel in (0, 1):
+            for sel2 in (0, 1):
                 for v in (3, 1000):
                     xblk = [ins("add", R(ACC), R(V), I(100))]
                     if tail == "jmpi_after_store":
                         xblk += [ins("mov", M("i64", 200, 1), R(ACC))]
+                    if tail.startswith("jmpi"):
+                        xblk += [{"op": "jmpi", "s": [R(LP)]}]
+                    elif tail == "cond":
+                        xblk += [br("bgt", "B", R(V), I(5))]            # falls into A otherwise
+                    elif tail == "jmp":
+                        xblk += [{"op": "jmp", "l": "B"}]
+                    else:
+                        xblk += [ins("add", R(ACC), R(ACC), R(V))]        # falls into A2
                     items = [ins("mov", R(SEL), M("i64", 0, 1)), ins("mov", R(V), M("i64", 8, 1)), ins("mov", R(SEL2), M("i64", 16, 1)),
                              ins("mov", R(ACC), I(0)), ins("mov", R(LP), LR), ins("mov", R(LP), M("i64", 0, LP)),
                              br("bt", "A", R(SEL2)), br("bt", "Y", R(SEL)),
-                             "X"] + xblk + [{"op": "jmpi", "s": [R(LP)]},
-                             "A", ins("mov", R(ACC), I(55)), {"op": "jmp", "l": "OUT"},
+                             "X"] + xblk + [
+                             "A", ins("add", R(ACC), R(ACC), I(55)), {"op": "jmp", "l": "OUT"},
                              "B", ins("add", R(ACC), R(ACC), I(1)),
                              "OUT", ins("mov", M("i64", 192, 1), R(ACC)), {"op": "ret", "s": [R(ACC)]},
                              "Y", ins("mov", R(V), I(7)), {"op": "jmp", "l": "X"}]
@@ -102,5 +110,80 @@ def clone_jmpi_cases():
                     w = lambda x: (x & ((1 << 64) - 1)).to_bytes(8, "little")
                     c = progs.family_case(insns, 6, w(sel) + w(v) + w(sel2))
                     c["prog"]["funcs"][0]["lrefs"] = [{"l": pcs["B"], "l2": 0, "d": 0}]
+                    out.append(c)
+    return out
+
+
+def andext_cases():
+    """`and t, x, C` (the constant on either side) followed by a sign or zero extension of t, and a comparison result followed by
+    an extension: the shapes copy propagation at -O2 rewrites into a single `and` with a narrowed constant / a move."""
+    out = []
+    X, T, RES, C = 2, 3, 4, 5
+    for cst in (0xff, 0x1ff, 0xffff00ff, 0xffffffff, -1, 0x8000000000000080, 0x7f80):
+        for ext in ("uext8", "uext16", "uext32", "ext8", "ext16", "ext32"):
+            for order in (0, 1):
+                for via_reg in (0, 1):
+                    for x in (0x8091a2b3c4d5e6f7, -1, 0x0000000180008080):
+                        cop = R(C) if via_reg else I(cst)
+                        for andop in ("and", "ands"):
+                            items = [ins("mov", R(X), M("i64", 0, 1)), ins("mov", R(C), I(cst)),
+                                     ins(andop, R(T), R(X), cop) if order == 0 else ins(andop, R(T), cop, R(X)),
+                                     ins(ext, R(RES), R(T)), ins("mov", M("i64", 192, 1), R(RES))]
+                            if andop == "and":          # the upper half of a 32-bit result is not defined: only its extension is observed
+                                items += [ins("mov", M("i64", 200, 1), R(T))]
+                            items += [{"op": "ret", "s": [R(RES)]}]
+                            insns, _ = progs.assemble(items)
+                            out.append(progs.family_case(insns, 5, (x & ((1 << 64) - 1)).to_bytes(8, "little")))
+    for cmp in ("lt", "ults", "eq", "nes", "uge"):
+        for ext in ("uext8", "ext8", "ext32", "uext16"):
+            for a, b in ((1, 2), (2, 1), (-1, 1), (5, 5)):
+                items = [ins("mov", R(X), M("i64", 0, 1)), ins("mov", R(C), M("i64", 8, 1)), ins(cmp, R(T), R(X), R(C)), ins(ext, R(RES), R(T)),
+                         ins("mov", M("i64", 192, 1), R(RES)), {"op": "ret", "s": [R(RES)]}]
+                insns, _ = progs.assemble(items)
+                w = lambda v: (v & ((1 << 64) - 1)).to_bytes(8, "little")
+                out.append(progs.family_case(insns, 5, w(a) + w(b)))
+    return out
+
+
+def spill_index_cases():
+    """accesses through base + index * scale (+ displacement) while more values are live than there are registers, so that base,
+    index and the transferred value may all live in stack slots: the address has to be rebuilt in scratch registers without
+    disturbing the value."""
+    out = []
+    P, IDX, VAL, S = 1, 2, 3, 4
+    for nt in (12, 15, 19):
+        for scale, ty in ((8, "i64"), (4, "i32"), (2, "u16"), (1, "i8"), (8, "d")):
+            for kind in ("store", "load", "both"):
+                for idx in (1, 3):
+                    t0 = 5
+                    temps = list(range(t0, t0 + nt))
+                    fp = ty == "d"
+                    FV = t0 + nt
+                    items = [ins("mov", R(IDX), M("i64", 0, 1)), ins("mov", R(VAL), M("i64", 8, 1)), ins("mov", R(S), M("i64", 16, 1))]
+                    if fp:
+                        items += [ins("dmov", R(FV), M("d", 48, 1))]
+                    items += [ins("add", R(t), R(S), I(k + 1)) for k, t in enumerate(temps)]
+                    for r in range(2):
+                        items += [ins("add", R(t), R(t), R(temps[(k + 1) % nt])) for k, t in enumerate(temps)]
+                    mem = M(ty, 64, P, IDX, scale)
+                    if kind in ("store", "both"):
+                        items += [ins("dmov" if fp else "mov", mem, R(FV) if fp else R(VAL))]
+                    if kind in ("load", "both"):
+                        items += [ins("dmov", R(FV), M(ty, 128, P, IDX, scale))] if fp else [ins("mov", R(VAL), M(ty, 128, P, IDX, scale))]
+                    for r in range(2):
+                        items += [ins("xor", R(t), R(t), R(temps[(k + 2) % nt])) for k, t in enumerate(temps)]
+                    items += [ins("add", R(temps[0]), R(temps[0]), R(t)) for t in temps[1:]]
+                    items += [ins("add", R(temps[0]), R(temps[0]), R(IDX))]
+                    if fp:
+                        items += [ins("dmov", M("d", 200, 1), R(FV))]
+                    else:
+                        items += [ins("mov", M("i64", 200, 1), R(VAL))]
+                    items += [ins("mov", M("i64", 192, 1), R(temps[0])), {"op": "ret", "s": [R(temps[0])]}]
+                    insns, _ = progs.assemble(items)
+                    w = lambda v: (v & ((1 << 64) - 1)).to_bytes(8, "little")
+                    c = progs.family_case(insns, FV if fp else FV - 1, b"")
+                    c["prog"]["funcs"][0]["regty"] = ["i"] * (FV - 1) + (["d"] if fp else [])
+                    c["buf0"] = list(w(idx) + w(0x1122334455667788) + w(100) + bytes(24)) + fp_cells("d", FPV["1.5"], 8) + list(bytes(72)) \
+                        + (sum((fp_cells("d", FPV["2.5"] if k % 2 else FPV["-1.5"], 8) for k in range(8)), []) if fp else list(bytes(range(0x41, 0x41 + 64)))) + c["buf0"][192:]
                     out.append(c)
     return out
